@@ -855,6 +855,10 @@ def direct_connect_outputs(block=None):
     for w in wirevectors_to_remove:
         block.remove_wirevector(w)
 
+    if nets_to_remove:
+        # removing a 'w' net can make the net before it eligible (chains of 'w' nets): repeat
+        direct_connect_outputs(block)
+
 
 def _make_tree(wire, block, curr_fanout):
     def f(w, n):
